@@ -498,6 +498,14 @@ func TestC11(t *testing.T) {
 
 func TestC11Regress(t *testing.T) {
 	for _, s := range loadSaved(t, "C11") {
+		var probe struct {
+			Conc int `json:"concurrent_connections"`
+		}
+		mustUnmarshal(t, s, &probe)
+		if probe.Conc > 0 {
+			runC11Concurrent(t)
+			continue
+		}
 		var c c11Case
 		mustUnmarshal(t, s, &c)
 		runC11(t, c)
